@@ -131,7 +131,7 @@ def convert_statement(node: TokenElement, state: ConvertState):
             if repeat.implicit and not state.inserted:
                 # It’s an implicit repeater but no repeater placeholders found inside,
                 # we should insert text into deepest node
-                target = items[-1]
+                target = items[-1] if items else None
                 deepest = deepest_node(target) if target else None
                 if deepest:
                     insert_text(deepest, state.get_text(repeat.value))
